@@ -92,6 +92,22 @@ Edge2 == {[kind |-> "edge", ret |-> r, params |-> ps, decor |-> NoDecor, edges |
             : r \in (IF Lean = 1 THEN {"", "int"} ELSE Anns),
               ps \in {q \in ParamLists(MaxP2, Anns, {NoVal}) : Lean = 0 \/ \A i \in DOMAIN q : q[i].kind = "pk"},
               e \in EdgeShapes, f \in SecondShapes}
+\* FAN-OUT: two or three edges leaving the same producer, in every order, drawn from a pool that holds well-formed edges and
+\* one edge for each modelled fault (unknown output, incompatible type, unknown sink parameter, unknown sink task); the
+\* producer has one output (int) or is hand-made with two outputs of different declared types, so that output "1" is
+\* unknown / incompatible / fine and output "0" fine / fine / incompatible for the int parameter `a`.  Whatever the order
+\* of the with_edge calls, one faulty edge makes the description ill formed.
+FanConsumer == <<[name |-> "a", kind |-> "pk", ann |-> "int", dflt |-> NoVal], [name |-> "b", kind |-> "pk", ann |-> "", dflt |-> NoVal]>>
+FanPool == {[st |-> "t1", so |-> so, dt |-> "t2", mode |-> m[1], into |-> m[2]]
+              : so \in {"0", "1"}, m \in {<<"kw", "a">>, <<"kw", "b">>}}
+      \cup {[st |-> "t1", so |-> "0", dt |-> "t2", mode |-> "ps", into |-> "0"],
+            [st |-> "t1", so |-> "zz", dt |-> "t2", mode |-> "kw", into |-> "b"],
+            [st |-> "t1", so |-> "0", dt |-> "t2", mode |-> "kw", into |-> "zz"],
+            [st |-> "t1", so |-> "0", dt |-> "nope", mode |-> "kw", into |-> "a"]}
+FanSeqs == {<<e, f>> : e \in FanPool, f \in FanPool} \cup {<<e, f, g>> : e \in FanPool, f \in FanPool, g \in FanPool}
+Edge4 == {[kind |-> "edge", ret |-> outs[1], outs |-> outs, params |-> FanConsumer, decor |-> NoDecor, edges |-> es]
+            : outs \in {<<"int">>, <<"int", "str">>, <<"str", "int">>},
+              es \in {q \in FanSeqs : \A i, j \in DOMAIN q : i # j => q[i] # q[j]}}
 \* consumer with positional-only / *args / **kwargs parameters; one edge into a real parameter, into each of those names,
 \* into a name that exists nowhere, or positional
 DecorShapes == {[st |-> "t1", so |-> "0", dt |-> "t2", mode |-> m[1], into |-> m[2]]
@@ -149,7 +165,10 @@ Compat(t1, t2) == IF t2 = "Any" THEN "yes" ELSE IF t1 = "Any" THEN "open" ELSE I
 
 \* edge e against the described tasks: the set of things wrong with it
 TaskIns(c, t) == IF t = "t2" THEN InSchema(c.params) ELSE {}
-TaskOuts(c, t) == IF t = "t1" THEN OutSchema(c.ret) ELSE OutSchema("")
+\* the producer's outputs: one, typed by the return annotation - or, for a hand-made producer, `outs` = the declared types
+\* of its outputs "0", "1", ...
+TaskOuts(c, t) == IF t = "t1" THEN (IF "outs" \in DOMAIN c THEN {<<ToString(i - 1), c.outs[i]>> : i \in DOMAIN c.outs} ELSE OutSchema(c.ret))
+                  ELSE OutSchema("")
 Tasks == {"t1", "t2"}
 EdgeFaults(c, e) ==
   LET srcT == e.st \in Tasks
@@ -204,10 +223,10 @@ PostEdge(c, r) ==
 \cup (IF o.outcome = "job" /\ (got # want \/ Len(o.edges) # Len(c.edges) \/ JobTaskNames(o) # Tasks)
       THEN {"job_differs_from_description"} ELSE {})
 \cup (IF o.outcome = "job" /\ JobTaskNames(o) = Tasks
-         /\ (Pairs(JobTask(o, "t2").ins) # InSchema(c.params) \/ Pairs(JobTask(o, "t1").outs) # OutSchema(c.ret))
+         /\ (Pairs(JobTask(o, "t2").ins) # InSchema(c.params) \/ Pairs(JobTask(o, "t1").outs) # TaskOuts(c, "t1"))
       THEN {"schema_differs_from_signature"} ELSE {})
 \cup (IF r.first_before.outcome = "job" /\ JobTaskNames(r.first_before) = Tasks
-         /\ (Pairs(JobTask(r.first_before, "t2").ins) # InSchema(c.params) \/ Pairs(JobTask(r.first_before, "t1").outs) # OutSchema(c.ret))
+         /\ (Pairs(JobTask(r.first_before, "t2").ins) # InSchema(c.params) \/ Pairs(JobTask(r.first_before, "t1").outs) # TaskOuts(c, "t1"))
       THEN {"schema_differs_from_signature"} ELSE {})
 \cup (IF o.outcome = "problems" /\ faults = {} THEN {"rejected_without_problem"} ELSE {})
 \cup (IF o.outcome = "problems" /\ Len(o.problems) = 0 THEN {"empty_problem_list"} ELSE {})
@@ -251,7 +270,7 @@ Generate == IF IOEnv.CASES_FILE = "none" THEN TRUE ELSE
                   b3 == SetToSeq(Bind3)
                   b4 == SetToSeq(Bind4 \cup Bind5)
                   s == [i \in 1..Len(b) |-> BindJson(b[i])] \o [i \in 1..Len(b3) |-> BindJson(b3[i])] \o [i \in 1..Len(b4) |-> BindJson(b4[i])]
-                       \o SetToSeq(Edge1) \o SetToSeq(Edge2) \o SetToSeq(Edge3)
+                       \o SetToSeq(Edge1) \o SetToSeq(Edge2) \o SetToSeq(Edge3) \o SetToSeq(Edge4)
               IN JsonSerialize(IOEnv.CASES_FILE, s)
 Judge ==
   LET cs == JsonDeserialize(IOEnv.JUDGE_CASES)
